@@ -296,6 +296,26 @@ static void run_zi2(int tier, int f, int zi, vf_result *r)
 	get_matrix(tier, k, c->from, in);
 	c->f(in, out, z0);
 	++r->transitions;
+	{
+	    /* the result vector laid over the matrix it is computed from,
+	       as vnadata_convert does when it converts to Zin in place */
+	    double complex al[2][2];
+	    memcpy(al, in, sizeof(al));
+	    c->f(al, &al[0][0], z0);
+	    ++r->transitions;
+	    if (memcmp(&al[0][0], out, sizeof(out)) != 0 &&
+		    !(isnan(creal(out[0])) || isnan(creal(out[1])) ||
+			isnan(cimag(out[0])) || isnan(cimag(out[1])))) {
+		snprintf(sig, sizeof(sig), "alias:%s", c->name);
+		vf_fail(r, sig, "%s: with the result vector laid over the "
+			"input matrix the input impedances are %g%+gj, "
+			"%g%+gj, with separate buffers %g%+gj, %g%+gj "
+			"(matrix #%d)", c->name, creal(al[0][0]),
+			cimag(al[0][0]), creal(al[0][1]), cimag(al[0][1]),
+			creal(out[0]), cimag(out[0]), creal(out[1]),
+			cimag(out[1]), k);
+	    }
+	}
 	if (ports_zin(2, c->from, &in[0][0], z0, ref) != PORTS_OK) {
 	    ++sing;
 	    continue;
@@ -487,6 +507,23 @@ static void run_convn(int f, int n, int zk, vf_result *r)
 	    double complex ref[NMAX];
 	    c->fz(in, out, z0, n);
 	    ++r->transitions;
+	    {
+		/* result vector laid over the input matrix */
+		int nanout = 0;
+		memcpy(al, in, sizeof(double complex) * (size_t)(n * n));
+		c->fz(al, al, z0, n);
+		++r->transitions;
+		for (int p = 0; p < n; ++p)
+		    if (isnan(creal(out[p])) || isnan(cimag(out[p])))
+			nanout = 1;
+		if (!nanout && memcmp(al, out, sizeof(double complex) *
+			    (size_t)n) != 0) {
+		    snprintf(sig, sizeof(sig), "alias:%s", c->name);
+		    vf_fail(r, sig, "%s n=%d: result vector laid over the "
+			    "input matrix differs from separate buffers "
+			    "(matrix #%d)", c->name, n, k);
+		}
+	    }
 	    if (ports_zin(n, c->from, in, z0, ref) != PORTS_OK) {
 		++sing;
 		continue;
